@@ -16,6 +16,7 @@ theorem runS_fst (env : Env) (b : List S) (tr tr' : List String) : (runS env b t
   | cons x r ih =>
       cases x with
       | raise cls c => simp only [runS]; split <;> simp [ih tr tr']
+      | implicit cls c => simp only [runS]; split <;> simp [ih tr tr']
       | ret c => simp only [runS]; split <;> simp [ih tr tr']
       | mutate w => simp only [runS]; exact ih _ _
 
@@ -39,6 +40,7 @@ theorem traceStmts_fst (env : Env) (g : List Stmt) (tr tr' : List String) :
       | s x =>
           cases x with
           | raise cls c => simp only [traceStmts]; split <;> simp [ih tr tr']
+          | implicit cls c => simp only [traceStmts]; split <;> simp [ih tr tr']
           | ret c => simp only [traceStmts]; split <;> simp [ih tr tr']
           | mutate w => simp only [traceStmts]; exact ih _ _
       | each v l b =>
@@ -52,6 +54,10 @@ theorem traceStmts_fst (env : Env) (g : List Stmt) (tr tr' : List String) :
 
 @[simp] theorem runStmts_raise (env : Env) (cls : String) (c : C) (r : List Stmt) :
     runStmts env (.s (.raise cls c) :: r) = if evalC env c then .reject cls else runStmts env r := by
+  simp only [runStmts, traceStmts]; split <;> rfl
+
+@[simp] theorem runStmts_implicit (env : Env) (cls : String) (c : C) (r : List Stmt) :
+    runStmts env (.s (.implicit cls c) :: r) = if evalC env c then .reject cls else runStmts env r := by
   simp only [runStmts, traceStmts]; split <;> rfl
 
 @[simp] theorem runStmts_ret (env : Env) (c : C) (r : List Stmt) :
@@ -101,6 +107,7 @@ theorem runS_trace_of_no_mut (env : Env) (b : List S) (tr : List String)
       simp only [List.all_cons, Bool.and_eq_true] at h
       cases x with
       | raise cls c => simp only [runS]; split <;> simp [ih tr h.2]
+      | implicit cls c => simp only [runS]; split <;> simp [ih tr h.2]
       | ret c => simp only [runS]; split <;> simp [ih tr h.2]
       | mutate w => simp [S.muts] at h
 
@@ -134,6 +141,7 @@ theorem traceStmts_of_mutFree (env : Env) (g : List Stmt) (tr : List String) (h 
       | s x =>
           cases x with
           | raise cls c => simp only [traceStmts]; split <;> simp [ih tr hr]
+          | implicit cls c => simp only [traceStmts]; split <;> simp [ih tr hr]
           | ret c => simp only [traceStmts]; split <;> simp [ih tr hr]
           | mutate w => simp [Stmt.muts, S.muts] at h
       | each v l b =>
@@ -191,7 +199,7 @@ theorem dot_smul_left (k : Rat) (a b : V3) : V3.dot (V3.smul k a) b = k * V3.dot
 
 /-! helpers of the per-entry-point theorems -/
 
-theorem eachOut_removeEdges (env : Env) (cs : List Int) :
+theorem eachOut_removeEdges_explicit (env : Env) (cs : List Int) :
     eachOut env "corner"
       [.raise "FaceCreationError" (.or (.cmp .lt (.var "corner") (.int 0)) (.cmp .gt (.var "corner") (.int 3))),
        .mutate "self.edges"] cs =
@@ -276,5 +284,44 @@ theorem arcTheta_cond (a twoPi : Rat) :
     constructor
     · rintro ⟨h1, h2⟩; exact ⟨ne_of_gt h1, by linarith, h2⟩
     · rintro ⟨hne, _, h3⟩; exact ⟨lt_of_le_of_ne h0' (Ne.symm hne), h3⟩
+
+theorem eachOut_removeEdges (env : Env) (cs : List Int) :
+    eachOut env "corner"
+      [.raise "FaceCreationError" (.or (.cmp .lt (.var "corner") (.int 0)) (.cmp .gt (.var "corner") (.int 3))),
+       .implicit "IndexError" (.not (.and (.cmp .le (.int (-4)) (.var "corner")) (.cmp .lt (.var "corner") (.int 4)))),
+       .mutate "self.edges"] cs =
+      match removeEdgesRun cs with
+      | .accept => none
+      | .reject cls => some (.reject cls) := by
+  induction cs with
+  | nil => rfl
+  | cons c r ih =>
+      simp only [eachOut, runS, evalC, evalE, evalOp, Env.bind, removeEdgesRun, faceCornerBad]
+      have e : (decide (((c : Int) : Rat) < ((0 : Int) : Rat)) || decide (((c : Int) : Rat) > ((3 : Int) : Rat)))
+          = (decide (c < 0) || decide (c > 3)) := by
+        congr 1 <;> simp
+      have e2 : (decide ((((-4 : Int)) : Rat) ≤ ((c : Int) : Rat)) && decide (((c : Int) : Rat) < ((4 : Int) : Rat)))
+          = (decide (-4 ≤ c) && decide (c < 4)) := by
+        congr 1 <;> simp [Int.cast_le, Int.cast_lt] <;> norm_cast
+      simp only [beq_self_eq_true, if_true, e, e2]
+      by_cases h : (decide (c < 0) || decide (c > 3)) = true
+      · simp [h]
+      · have h2 : (decide (-4 ≤ c) && decide (c < 4)) = true := by
+          simp only [Bool.or_eq_true, decide_eq_true_eq, not_or, not_lt] at h
+          simp only [Bool.and_eq_true, decide_eq_true_eq]; omega
+        simp [h, h2, ih]
+
+/-- after an explicit `c < 0 or c > hi` (hi ≤ 3) the subscript on a list of four elements cannot fail -/
+theorem implicit_index_unreachable (c hi : Int) (cls : String) (hhi : hi ≤ 3) :
+    (if c < 0 ∨ hi < c then Out.reject cls
+      else if (c : ℚ) < -4 ∨ 4 ≤ c then Out.reject "IndexError" else Out.accept) =
+    if c < 0 ∨ hi < c then Out.reject cls else Out.accept := by
+  by_cases h : c < 0 ∨ hi < c
+  · simp [h]
+  · have h1 : ¬ ((c : ℚ) < -4) := by
+      have : ((-4 : ℤ) : ℚ) ≤ (c : ℚ) := Int.cast_le.mpr (by omega)
+      push_cast at this; linarith
+    have h2 : ¬ (4 ≤ c) := by omega
+    simp [h, h1, h2]
 
 end CBV.C20
